@@ -383,13 +383,89 @@ pub fn run(run: &mut Run) {
             }
         }
     }
+    library_values(&mut st);
     run.stats = st;
-    run.rule = "value domains: ints, floats, strings, bools, tuples of arity 0-3 (int, float/int, int/str, nested), lists (of ints, tuples, lists), a two-field blob, a blob nesting a blob, an enum with payload / without / tuple payload; every ordered pair of each domain (as literals and through variables) under every operator the checker types for it (== != < <= > >= + - * / and unary -), int x float under < >; non-trivial = every evaluated operator application; distinct by operands+operator".into();
+    run.rule = "value domains: ints, floats, strings, bools, tuples of arity 0-3 (int, float/int, int/str, nested), lists (of ints, tuples, lists), a two-field blob, a blob nesting a blob, an enum with payload / without / tuple payload; every ordered pair of each domain (as literals and through variables) under every operator the checker types for it (== != < <= > >= + - * / and unary -), int x float under < >; enum values made by the standard library (list.get / last / pop / find, dict.get) against the same values written in source, bare and nested in tuples and lists, under == and != (121 ordered pairs x 5 nestings); non-trivial = every evaluated operator application; distinct by operands+operator".into();
     run.bounds = json!({"domains": doms.iter().map(|d| json!({"name": d.name, "values": d.values.len()})).collect::<Vec<_>>()});
     run.assumptions = vec![
         "the structural definition is RefSylt's (element-wise arithmetic, lexicographic order, structural equality), the laws are checked on the Lua results alone".into(),
         "operator/domain combinations the compiler rejects are outside the property's typed domain and are counted".into(),
     ];
+}
+
+/// enum values made by the standard library (list.get / last / find / pop, dict.get) against the same values written
+/// in source, bare and nested in tuples and lists, under == and != in both orders (std bundled)
+fn library_values(st: &mut Stats) {
+    // (source text, structural identity)
+    let vals: Vec<(&str, &str)> = vec![
+        ("list.get(l, 7)", "None"),
+        ("list.get(l, 0)", "Just 1"),
+        ("list.last(l)", "Just 1"),
+        ("list.pop(e)", "None"),
+        ("list.find(l, pu x -> x == 9 end)", "None"),
+        ("list.find(l, pu x -> x == 1 end)", "Just 1"),
+        ("dict.get(d, 5)", "None"),
+        ("dict.get(d, 1)", "Just 1"),
+        ("none_int()", "None"),
+        ("(Maybe.Just 1)", "Just 1"),
+        ("(Maybe.Just 2)", "Just 2"),
+    ];
+    let wraps: [(&str, &str); 5] = [("bare", "{}"), ("in tuple", "({}, 1)"), ("in list", "[{}]"), ("in nested tuple", "(({},),)"), ("in list in tuple", "(0, [{}])")];
+    for (a, ia) in &vals {
+        // one program per left operand (chunk-level locals are limited, known finding F-06d)
+        let mut text = String::from("from maybe use Maybe\nnone_int :: fn -> Maybe(int)\n    Maybe.None\nend\n");
+        let mut expected: Vec<(String, String)> = Vec::new();
+        let mut calls: Vec<String> = Vec::new();
+        for (k, (b, ib)) in vals.iter().enumerate() {
+            text.push_str(&format!("p{} :: fn do\n    l: [int] = [1]\n    e: [int] = []\n    d: dict.Dict(int, int) = dict.from_list([(1, 1)])\n    a: Maybe(int) : {}\n    b: Maybe(int) : {}\n", k, a, b));
+            for (wn, w) in &wraps {
+                let wa = w.replace("{}", "a");
+                let wb = w.replace("{}", "b");
+                text.push_str(&format!("    print({} == {})\n    print({} != {})\n", wa, wb, wa, wb));
+                expected.push((format!("{} == {} ({})", a, b, wn), format!("{}", ia == ib)));
+                expected.push((format!("{} != {} ({})", a, b, wn), format!("{}", ia != ib)));
+            }
+            text.push_str("end\n");
+            calls.push(format!("p{}()", k));
+        }
+        text.push_str("start :: fn do\n");
+        for c in &calls {
+            text.push_str(&format!("    {}\n", c));
+        }
+        text.push_str("end\n");
+        let mut files = serde_json::Map::new();
+        files.insert(MAIN.to_string(), json!(text));
+        let lua = match compile(&one_file(&text), MAIN, false) {
+            Outcome::Ok(b) => b,
+            other => {
+                eprintln!("MACHINERY: C19 library-values program does not compile: {}\n{}", other.short(), text);
+                std::process::exit(2);
+            }
+        };
+        let r = run_lua(&lua, 50_000_000);
+        if r.end != LuaEnd::Done || r.out.len() != expected.len() {
+            st.outcome("library-values:run-failed");
+            st.fail(Failure { sig: "library-values-run-failed".into(), preds: vec!["domain:library-made-enum-values".into()], detail: format!("{:?}, {} of {} lines", r.end, r.out.len(), expected.len()), case: json!({"engine": "c19", "files": files, "no_std": false, "line": 0, "expected": ""}), size: 10 });
+            continue;
+        }
+        for (idx, ((label, want), got)) in expected.iter().zip(r.out.iter()).enumerate() {
+            st.evaluations += 1;
+            st.transitions += 1;
+            st.nontrivial(fnv(label.as_bytes()));
+            if want == got {
+                st.outcome("agrees-with-structural-definition");
+            } else {
+                st.outcome("differs-from-structural-definition");
+                st.fail(Failure {
+                    sig: format!("wrong-result:{}", if label.contains(" == ") { "==" } else { "!=" }),
+                    preds: vec!["domain:library-made-enum-values".into()],
+                    detail: format!("{}: Lua printed {:?}, the structural definition gives {:?}", label, got, want),
+                    case: json!({"engine": "c19", "files": files, "line": idx, "expected": want, "no_std": false}),
+                    size: label.len(),
+                });
+            }
+        }
+    }
 }
 
 pub fn replay(case: &serde_json::Value) -> Option<(String, String)> {
@@ -398,7 +474,7 @@ pub fn replay(case: &serde_json::Value) -> Option<(String, String)> {
         return Some(("law-violated".into(), format!("{} on {}", case["law"], case["domain"])));
     }
     let text = case["files"][MAIN].as_str()?;
-    match compile_src(text) {
+    match compile(&one_file(text), MAIN, case["no_std"].as_bool().unwrap_or(true)) {
         Outcome::Ok(lua) => {
             let r = run_lua(&lua, 50_000_000);
             if r.end != LuaEnd::Done {
